@@ -231,6 +231,13 @@ func (vfs *MemFS) createDir(parent *dirNode, name string, perm fs.FileMode) *dir
 		id:       atomic.AddUint64(vfs.lastId, 1),
 	}
 
+	if parent.mode&fs.ModeSetgid != 0 {
+		// what is created in a set-group-ID directory belongs to the group of that directory,
+		// and a directory passes the bit on.
+		child.gid = parent.gid
+		child.mode |= fs.ModeSetgid
+	}
+
 	parent.addChild(name, child)
 
 	return child
@@ -247,6 +254,11 @@ func (vfs *MemFS) createFile(parent *dirNode, name string, perm fs.FileMode) *fi
 		},
 		id:    atomic.AddUint64(vfs.lastId, 1),
 		nlink: 1,
+	}
+
+	if parent.mode&fs.ModeSetgid != 0 {
+		// what is created in a set-group-ID directory belongs to the group of that directory.
+		child.gid = parent.gid
 	}
 
 	parent.addChild(name, child)
@@ -266,6 +278,11 @@ func (vfs *MemFS) createSymlink(parent *dirNode, name, link string) *symlinkNode
 		id:    atomic.AddUint64(vfs.lastId, 1),
 		link:  link,
 		nlink: 1,
+	}
+
+	if parent.mode&fs.ModeSetgid != 0 {
+		// what is created in a set-group-ID directory belongs to the group of that directory.
+		child.gid = parent.gid
 	}
 
 	parent.addChild(name, child)
